@@ -199,9 +199,9 @@ ORACLES = {'C02/relabel-invariance': oracle_relabel, 'C02/self-pair-rule': oracl
 
 def run(ctx):
     clauses = [
-        Clause('C02/relabel-invariance', relabel_case, oracle_relabel, quick=2000, thorough=100000, quick_shards=4),
-        Clause('C02/self-pair-rule', selfrule_case, oracle_selfrule, quick=1500, thorough=50000, quick_shards=3),
-        Clause('C02/pipeline-coding', frame_case, oracle_pipeline, quick=300, thorough=8000, quick_shards=3),
+        Clause('C02/relabel-invariance', relabel_case, oracle_relabel, quick=2000, thorough=300000, quick_shards=4),
+        Clause('C02/self-pair-rule', selfrule_case, oracle_selfrule, quick=1500, thorough=150000, quick_shards=3),
+        Clause('C02/pipeline-coding', frame_case, oracle_pipeline, quick=300, thorough=24000, quick_shards=3),
     ]
     drive(ctx, clauses)
     directed = ctx.stats.classes.get('equal-sum-nonidentical', 0) + ctx.stats.classes.get('equal-sum', 0)
